@@ -71,3 +71,20 @@ Example C06_form_example :
   form_decode pint pint (fun _ => None) s (form_of [("n", FPrim "42"); ("tags", FArr ["a"; "b"]); ("zz", FPrim "1")])
   = Some [("n", PI64 42); ("tags", PA [PS "a"; PS "b"])].
 Proof. vm_compute. reflexivity. Qed.
+
+(* the Encoding Object of a form body: whenever explode is written, and for style form (written or
+   not), the method the decoder uses is the one the specification gives ... *)
+Theorem C06_encoding_method_as_specified :
+  forall style explode, (explode <> None \/ style = "" \/ style = "form") -> enc_method style explode = enc_method_spec style explode.
+Proof.
+  intros style explode H. unfold enc_method, enc_method_spec.
+  destruct explode as [b|]; [reflexivity|].
+  destruct H as [H|[H|H]]; [contradiction H; reflexivity | subst style; reflexivity | subst style; reflexivity].
+Qed.
+
+(* ... refuted for the other styles when explode is left out: the code says exploded, the specification
+   says not (recorded finding form:urlencoded:array-in-declared-encoding-rejected; the existing test
+   TestEncodingSerializationMethod pins the code's answer, so it stays a finding) *)
+Example C06_refuted_encoding_explode_default :
+  exists style, enc_method style None <> enc_method_spec style None.
+Proof. exists "spaceDelimited". vm_compute. discriminate. Qed.
